@@ -201,6 +201,7 @@ fn gen_program(ch: &mut Chooser, depth: usize) -> Vec<Op> {
             menu.push(Some(Op::Fmt(h)));
             menu.push(Some(Op::Nth(h, 1)));
             menu.push(Some(Op::Nth(h, 7)));
+            menu.push(Some(Op::Nth(h, 255)));
             menu.push(Some(Op::Tail(h)));
         }
         if live < 2 {
@@ -251,7 +252,9 @@ fn history(ctx: &mut Ctx, arena: &Arena, d: u32, ver: u32, l: usize, img: &[u8],
             Op::Next(h) => {
                 let h = h as usize;
                 let Some(it) = real[h].as_mut() else { continue };
-                match ctx.call("next", || it.next().map(|e| obs_desc(e, map))) {
+                let r = ctx.call("next", || it.next().map(|e| obs_desc(e, map)));
+                ctx.ob("h.next.outcome", match &r { Out::Panic => 1, Out::Val(None) => 2, Out::Val(Some(_)) => 3 });
+                match r {
                     Out::Val(Some(de)) => {
                         if !check_desc(ctx, &de, model[h], d, ver, l, img, ok) {
                             return;
@@ -283,11 +286,14 @@ fn history(ctx: &mut Ctx, arena: &Arena, d: u32, ver: u32, l: usize, img: &[u8],
             }
             Op::Nth(h, kk) => {
                 let h = h as usize;
-                let kk = kk as usize;
+                // 255 stands for the largest argument there is
+                let kk = if kk == 255 { usize::MAX } else { kk as usize };
                 let Some(it) = real[h].as_mut() else { continue };
-                match ctx.call("nth", || it.nth(kk).map(|e| obs_desc(e, map))) {
+                let r = ctx.call("nth", || it.nth(kk).map(|e| obs_desc(e, map)));
+                ctx.ob("h.nth.outcome", match &r { Out::Panic => 1, Out::Val(None) => 2, Out::Val(Some(_)) => 3 });
+                match r {
                     Out::Val(Some(de)) => {
-                        let idx = model[h] + kk;
+                        let idx = model[h].saturating_add(kk);
                         if !ok || idx >= n {
                             ctx.violation("c18/history/nth-extra-item", || format!("step {} {:?}: nth({}) yields an item with {} of {} consumed", step, op, kk, model[h], n));
                             return;
@@ -302,7 +308,7 @@ fn history(ctx: &mut Ctx, arena: &Arena, d: u32, ver: u32, l: usize, img: &[u8],
                             ctx.violation("c18/no-refusal", || format!("step {}: nth() returned None on an invalid combination", step));
                             return;
                         }
-                        if model[h] + kk < n {
+                        if model[h].saturating_add(kk) < n {
                             ctx.violation("c18/history/nth-early-none", || format!("step {} {:?}: nth({}) = None with {} of {} consumed", step, op, kk, model[h], n));
                             return;
                         }
@@ -326,6 +332,7 @@ fn history(ctx: &mut Ctx, arena: &Arena, d: u32, ver: u32, l: usize, img: &[u8],
                     let folded: Vec<i64> = it.clone().fold(vec![], |mut v, e| { v.push(rel(e, map)); v });
                     (cnt, last, folded)
                 });
+                ctx.ob("h.tail.outcome", if r.is_panic() { 1 } else { 2 });
                 match r {
                     Out::Val((cnt, last, folded)) => {
                         ctx.ob("tail.count", cnt as u64);
@@ -356,7 +363,11 @@ fn history(ctx: &mut Ctx, arena: &Arena, d: u32, ver: u32, l: usize, img: &[u8],
             Op::Len(h) => {
                 let h = h as usize;
                 let Some(it) = real[h].as_ref() else { continue };
-                match ctx.call("len", || it.len()) {
+                let r = ctx.call("len", || it.len());
+                if r.is_panic() {
+                    ctx.ob("h.len.panic", 1);
+                }
+                match r {
                     Out::Val(x) => {
                         ctx.ob("len", x as u64);
                         if ok && x != n - model[h] {
@@ -486,7 +497,7 @@ fn run(ctx: &mut Ctx) {
     }
     // histories
     let depth = if quick { 4 } else if ctx.dev_profile() { 5 } else { 6 };
-    ctx.bound("histories", format!("all call sequences up to depth {} over {{next, nth(1), nth(7), len, size_hint, Debug, count/last/fold on clones}} on up to 2 handles plus clone, on desc_size {{40,48,64}} x 0..=3 descriptors and six invalid combinations", depth));
+    ctx.bound("histories", format!("all call sequences up to depth {} over {{next, nth(1), nth(7), nth(usize::MAX), len, size_hint, Debug, count/last/fold on clones}} on up to 2 handles plus clone, on desc_size {{40,48,64}} x 0..=3 descriptors and six invalid combinations", depth));
     let mut inputs: Vec<(u32, u32, usize)> = vec![];
     for d in [40u32, 48, 64] {
         for k in 0..=3usize {
